@@ -465,5 +465,275 @@ def nodesOf : Node → List Item
   | .file _ => []
   | .dir k => (Kids.walk [] k).map fun x => (x.2.isNone, x.1)
 
+/-! ### 10. Open handles on ONE memory file: an open reader next to a rewriting writer
+
+`filesystem/filespace/memfs/file.go`: a `File` is `data []byte` (a slice: backing array + length) and the lock
+`dataMU`.  `file_handler.go`: a stream handle — reader or writer alike — is created by `NewFileHandler`, which
+takes `dataMU.Lock()`, and gives the lock back in `Close`: from open to `Close` the handle owns the file, a
+second handle WAITS.  `Read` copies from the LIVE `file.data[pointer:]`; `Writer` sets `file.data = []byte{}`
+(a fresh array) and `Write` appends.
+
+The model has the file's storage (`Cell`: backing array, length, lock), ONE open reader handle (`MReader`) and
+ONE rewriting thread (`Sys.phase`/`todo`: `Writer(p)`, one `Write` per chunk, `Close`) and lets the two
+interleave: `wstep` is one step of the rewriter (a step that has to wait for the lock changes nothing), the
+reader's actions are `openReader` (after `awaitFree`: it waits for the lock too), `readR`, `closeReader`; a
+schedule `ws : List Nat` says how many rewriter steps happen before each action of the reader's thread.
+
+The discipline is a parameter (`Disc`), so that the code's own and the variants can be stated side by side:
+  reader  `lock`   the CURRENT memfs: the handle holds the lock from open to Close and reads the live slice
+          `copy`   the handle owns a private copy made under the lock when it was opened (the decrypting reader
+                   of encryptfs reads everything and closes the underlying stream in its constructor; a cache
+                   reader of a file of the remote filespace while the writer goes to the buffer)
+          `alias`  the handle keeps the slice header `file.data` (same backing array) and lets go of the lock
+  writer  `fresh`  the CURRENT memfs: `file.data = []byte{}`
+          `inPlace` `file.data = file.data[:0]` — keeps the backing array
+`alias` + `inPlace` is the seeded change C04-5 (`Disc.seeded`); every other combination is `Disc.safe`.
+Go's aliasing is modelled by detaching: whenever the file gets a NEW backing array (`fresh` truncation, an
+`append` beyond the capacity) a reader that shares the old array from then on owns what that array held — the
+abandoned array is never written again (only `file.data` is ever appended to).  The capacity is
+`back.length`; the slack a real `append` adds beyond what is needed is never visible (a reader sees at most the
+length it was opened with, which is within the capacity of that time) and is left out.  A `Read`, a `Write`
+are atomic steps (the `alias` variant has a data race in Go; the interleaving of whole calls is enough to show it).
+-/
+
+/-- the reader side of the discipline -/
+inductive RDisc where
+  | lock | copy | alias
+deriving DecidableEq, Repr
+
+/-- how `Writer(p)` truncates -/
+inductive TDisc where
+  | fresh | inPlace
+deriving DecidableEq, Repr
+
+structure Disc where
+  rd : RDisc
+  tr : TDisc
+deriving DecidableEq, Repr
+
+/-- the CURRENT memfs (and the cache for a file of its buffer) -/
+def Disc.memfs : Disc := ⟨.lock, .fresh⟩
+/-- encryptfs over memfs; the cache for a file that lives in the remote filespace -/
+def Disc.priv : Disc := ⟨.copy, .fresh⟩
+/-- the seeded change C04-5: snapshot of the slice header + truncation in place -/
+def Disc.seeded : Disc := ⟨.alias, .inPlace⟩
+
+/-- every discipline but `alias` + `inPlace` -/
+def Disc.safe (d : Disc) : Bool := !(d.rd == .alias && d.tr == .inPlace)
+
+/-- storage of a memfs `File`: `file.data = back[:len]`, `locked` = `dataMU` is held by a stream handle -/
+structure Cell where
+  back : Bytes
+  len : Nat
+  locked : Bool
+
+def Cell.content (c : Cell) : Bytes := c.back.take c.len
+
+/-- where an open reader takes its bytes from -/
+inductive RView where
+  /-- the live `file.data` (`lock`) -/
+  | live
+  /-- a private array -/
+  | own (d : Bytes)
+  /-- the first `n` bytes of the file's CURRENT backing array (`alias`) -/
+  | shared (n : Nat)
+
+structure MReader where
+  view : RView
+  pos : Nat
+
+/-- the bytes the handle reads from, as they are NOW -/
+def MReader.data (m : MReader) (c : Cell) : Bytes :=
+  match m.view with
+  | .live => c.content
+  | .own d => d
+  | .shared n => c.back.take n
+
+/-- the rewriter's progress: before `Writer(p)` has got the lock, between open and `Close`, after `Close` -/
+inductive Phase where
+  | idle | writing | closed
+deriving DecidableEq, Repr
+
+structure Sys where
+  cell : Cell
+  /-- the open reader, if any -/
+  rd : Option MReader
+  phase : Phase
+  /-- the chunks the rewriter still has to write -/
+  todo : List Bytes
+
+/-- a file holding `old` in an array with spare capacity `slack`, nobody has it open, the rewriter is about
+to write `chunks` -/
+def Sys.init (old slack : Bytes) (chunks : List Bytes) : Sys :=
+  ⟨⟨old ++ slack, old.length, false⟩, none, .idle, chunks⟩
+
+/-- the file gets a new backing array: a reader that shares the old one keeps what it held -/
+def detach (c : Cell) : Option MReader → Option MReader
+  | some ⟨.shared n, pos⟩ => some ⟨.own (c.back.take n), pos⟩
+  | r => r
+
+/-- ONE step of the rewriting thread.
+`idle`: `NewFileHandler(file)` — `dataMU.Lock()`: while another handle holds the lock the thread waits (the
+state does not change); then the truncation.  `writing`: the next `Write` (`append`: in place while the
+capacity suffices, else a new array), or `Close` (`dataMU.Unlock()`).  `closed`: nothing. -/
+def wstep (cfg : Disc) (s : Sys) : Sys :=
+  match s.phase with
+  | .idle =>
+    if s.cell.locked then s else
+    match cfg.tr with
+    | .fresh => { s with cell := ⟨[], 0, true⟩, rd := detach s.cell s.rd, phase := .writing }
+    | .inPlace => { s with cell := ⟨s.cell.back, 0, true⟩, phase := .writing }
+  | .writing =>
+    match s.todo with
+    | [] => { s with cell := { s.cell with locked := false }, phase := .closed }
+    | c :: rest =>
+      if s.cell.len + c.length ≤ s.cell.back.length then
+        { s with cell := { s.cell with back := s.cell.back.take s.cell.len ++ c ++ s.cell.back.drop (s.cell.len + c.length),
+                                       len := s.cell.len + c.length },
+                 todo := rest }
+      else
+        { s with cell := { s.cell with back := s.cell.back.take s.cell.len ++ c, len := s.cell.len + c.length },
+                 rd := detach s.cell s.rd, todo := rest }
+  | .closed => s
+
+def wsteps (cfg : Disc) : Nat → Sys → Sys
+  | 0, s => s
+  | n + 1, s => wsteps cfg n (wstep cfg s)
+
+/-- the reader's thread is about to open the file and finds the lock taken (by the rewriter: there is no other
+handle): it waits, i.e. only the rewriter moves, until its `Close` -/
+def awaitFree (cfg : Disc) (s : Sys) : Sys :=
+  if s.cell.locked then wsteps cfg (s.todo.length + 1) s else s
+
+/-- `Reader(p)` once the lock is free -/
+def openReader (cfg : Disc) (s : Sys) : Sys :=
+  match cfg.rd with
+  | .lock => { s with cell := { s.cell with locked := true }, rd := some ⟨.live, 0⟩ }
+  | .copy => { s with rd := some ⟨.own s.cell.content, 0⟩ }
+  | .alias => { s with rd := some ⟨.shared s.cell.len, 0⟩ }
+
+/-- `Read(buf)`, `len(buf) = n`, on the open reader (memfs `FileHandler.Read`: `io.EOF` with the last bytes):
+the `eager` `RHandle.read` on the bytes the handle sees NOW -/
+def readR (s : Sys) (n : Nat) : Bytes × Bool × Sys :=
+  match s.rd with
+  | none => ([], false, s)
+  | some m =>
+    let r := (RHandle.mk (m.data s.cell) m.pos .eager).read n
+    (r.1, r.2.1, { s with rd := some { m with pos := r.2.2.pos } })
+
+/-- the reader's `Close`: a `lock` handle gives the lock back -/
+def closeReader (s : Sys) : Sys :=
+  match s.rd with
+  | none => s
+  | some ⟨.live, _⟩ => { s with cell := { s.cell with locked := false }, rd := none }
+  | some _ => { s with rd := none }
+
+/-- the bytes the open reader sees now ([] when there is none) -/
+def Sys.readerData (s : Sys) : Bytes :=
+  match s.rd with
+  | none => []
+  | some m => m.data s.cell
+
+/-- one `Read` per size; before the i-th, `ws[i]` steps of the rewriter -/
+def readsI (cfg : Disc) : List Nat → List Nat → Sys → List (Bytes × Bool) × List Nat × Sys
+  | ws, [], s => ([], ws, s)
+  | ws, n :: ns, s =>
+    let r := readR (wsteps cfg (ws.headD 0) s) n
+    let rest := readsI cfg ws.tail ns r.2.2
+    ((r.1, r.2.1) :: rest.1, rest.2.1, rest.2.2)
+
+structure RdOut where
+  /-- the content of the file at the moment the reader was opened -/
+  atOpen : Bytes
+  /-- per `Read`: the bytes delivered, whether `io.EOF` came with them -/
+  out : List (Bytes × Bool)
+  /-- the system just before the reader's `Close` -/
+  beforeClose : Sys
+  /-- the system after both threads have finished -/
+  fin : Sys
+
+/-- a reader's life next to a rewrite of the same file, under the schedule `ws`:
+`ws[0]` rewriter steps, `Reader(p)` (waiting for the lock if need be), then per size `ws[i+1]` rewriter steps
+and a `Read`, then `ws[len+1]` rewriter steps and `Close`; finally the rewriter runs to its end.  Every
+interleaving of the two threads is such a schedule (entries beyond the list are 0). -/
+def readerRun (cfg : Disc) (ws sizes : List Nat) (s : Sys) : RdOut :=
+  let s1 := awaitFree cfg (wsteps cfg (ws.headD 0) s)
+  let rr := readsI cfg ws.tail sizes (openReader cfg s1)
+  let s2 := wsteps cfg (rr.2.1.headD 0) rr.2.2
+  let s3 := closeReader s2
+  ⟨s1.cell.content, rr.1, s2, wsteps cfg (s3.todo.length + 2) s3⟩
+
+/-! `io.Copy` over an ABSTRACT reader: `ioLoop` with the reader's state type and its `Read` as parameters
+(`ioLoopG RHandle.read` is `ioLoop`: `Proofs/StreamConc.ioLoopG_eq`), so that the same loop can be run on a
+reader whose file is being rewritten between its reads. -/
+
+structure CopyOutG (ρ : Type) where
+  ok : Bool
+  calls : Calls
+  r : ρ
+  w : WHandle
+
+def faultyReadG {ρ : Type} (rd : ρ → Nat → Bytes × Bool × ρ) (pl : Plan) (c : Calls) (r : ρ) (n : Nat) :
+    Bytes × RStat × Calls × ρ :=
+  match pl .read (c .read) with
+  | some .hard => ([], .err, c.bump .read, r)
+  | some .short => ((rd r (n / 2)).1, .err, c.bump .read, (rd r (n / 2)).2.2)
+  | none => ((rd r n).1, if (rd r n).2.1 then .eof else .more, c.bump .read, (rd r n).2.2)
+
+def ioLoopG {ρ : Type} (rd : ρ → Nat → Bytes × Bool × ρ) (pl : Plan) : Nat → List Nat → Calls → ρ → WHandle → CopyOutG ρ
+  | 0, _, c, r, w => ⟨false, c, r, w⟩
+  | fuel + 1, sizes, c, r, w =>
+    let x := faultyReadG rd pl c r (chunkSize sizes)
+    if x.1.isEmpty then
+      match x.2.1 with
+      | .more => ioLoopG rd pl fuel sizes.tail x.2.2.1 x.2.2.2 w
+      | .eof => ⟨true, x.2.2.1, x.2.2.2, w⟩
+      | .err => ⟨false, x.2.2.1, x.2.2.2, w⟩
+    else
+      let wr := faultyWrite pl x.2.2.1 w x.1
+      if wr.1 then
+        match x.2.1 with
+        | .more => ioLoopG rd pl fuel sizes.tail wr.2.1 x.2.2.2 wr.2.2
+        | .eof => ⟨true, wr.2.1, x.2.2.2, wr.2.2⟩
+        | .err => ⟨false, wr.2.1, x.2.2.2, wr.2.2⟩
+      else ⟨false, wr.2.1, x.2.2.2, wr.2.2⟩
+
+/-- a `Read` of the copy's source reader under a schedule: first the rewriter's steps, then the `Read` -/
+def rdC (cfg : Disc) (x : Sys × List Nat) (n : Nat) : Bytes × Bool × (Sys × List Nat) :=
+  let r := readR (wsteps cfg (x.2.headD 0) x.1) n
+  (r.1, r.2.1, (r.2.2, x.2.tail))
+
+/-- `fshelper.StreamCopy(sourcefs, destfs, subPath)` (the text of `streamCopy2`) whose SOURCE file — a memory
+file, `s` — is being rewritten by another thread while the copy runs; `dst`/`dp` is some other filespace.
+Schedule: `ws[0]` rewriter steps before `sourcefs.Reader` (which waits for the lock), `ws[i+1]` before the
+i-th `Read` that `io.Copy` makes, the next entry before `reader.Close()`; then the rewriter runs to its end.
+Returns the helper's outcome and the source system afterwards. -/
+def streamCopyRW (cfg : Disc) (pl : Plan) (sizes : List Nat) (c : Calls) (ws : List Nat) (s : Sys) (dst : Dest)
+    (dp : Path) : Out × Sys :=
+  let fin := fun (s : Sys) => wsteps cfg (s.todo.length + 2) s
+  let closeR := fun (x : Sys × List Nat) => fin (closeReader (wsteps cfg (x.2.headD 0) x.1))
+  match pl .openReader (c .openReader) with
+  | some _ => (⟨false, c.bump .openReader, dst⟩, fin (wsteps cfg (ws.headD 0) s))
+  | none =>
+    let c := c.bump .openReader
+    let s := openReader cfg (awaitFree cfg (wsteps cfg (ws.headD 0) s))
+    match pl .openWriter (c .openWriter) with
+    | some _ => (⟨false, (c.bump .openWriter).bump .closeReader, dst⟩, closeR (s, ws.tail))
+    | none =>
+      let c := c.bump .openWriter
+      match dst.openWriter dp with
+      | none => (⟨false, c.bump .closeReader, dst⟩, closeR (s, ws.tail))
+      | some (d1, w) =>
+        let o := ioLoopG (rdC cfg) pl (sizes.length + s.readerData.length + 2) sizes c (s, ws.tail) w
+        let cw := faultyCloseW pl o.calls o.w
+        let d2 := d1.store dp cw.2.2
+        if !o.ok then (⟨false, cw.2.1.bump .closeReader, d2⟩, closeR o.r)
+        else
+          if !cw.1 then (⟨false, cw.2.1.bump .closeReader, d2⟩, closeR o.r)
+          else
+            match pl .closeReader (cw.2.1 .closeReader) with
+            | some _ => (⟨false, cw.2.1.bump .closeReader, d2⟩, closeR o.r)
+            | none => (⟨true, cw.2.1.bump .closeReader, d2⟩, closeR o.r)
+
 end Stream
 end Goat
